@@ -234,14 +234,14 @@ Section XRun.
 
   Definition x_model_run : list uobs * list (bytes * list (option bytes)) :=
     match xc_stack c with
-    | SMem => let '(st, obs) := run_x mb (fun st _ => st) (xc_repo c) init None None (xc_ops c) in (obs, xlook1 st)
-    | SHop1 => let '(st, obs) := run_x xh1 set_plan (xc_repo c) (init, []) None None (xc_ops c) in (obs, xlook1 (fst st))
-    | SHop2 => let '(st, obs) := run_x xh2 set_plan (xc_repo c) (init, []) None None (xc_ops c) in (obs, xlook1 (fst st))
+    | SMem => let '(st, obs) := run_x mb (fun st _ => st) (fun _ => init) (xc_repo c) init None None (xc_ops c) in (obs, xlook1 st)
+    | SHop1 => let '(st, obs) := run_x xh1 set_plan (fun _ => (init, [])) (xc_repo c) (init, []) None None (xc_ops c) in (obs, xlook1 (fst st))
+    | SHop2 => let '(st, obs) := run_x xh2 set_plan (fun _ => (init, [])) (xc_repo c) (init, []) None None (xc_ops c) in (obs, xlook1 (fst st))
     | SUnifyMem =>
-        let '(st, obs) := run_x (unify_backend mb mb) (fun st _ => st) (xc_repo c) (init, init) None None (xc_ops c) in
+        let '(st, obs) := run_x (unify_backend mb mb) (fun st _ => st) (fun _ => (init, init)) (xc_repo c) (init, init) None None (xc_ops c) in
         (obs, xlook2 st)
     | SUnifyHop1 =>
-        let '(st, obs) := run_x (unify_backend h1 h1) (fun st _ => st) (xc_repo c) (init, init) None None (xc_ops c) in
+        let '(st, obs) := run_x (unify_backend h1 h1) (fun st _ => st) (fun _ => (init, init)) (xc_repo c) (init, init) None None (xc_ops c) in
         (obs, xlook2 st)
     end.
 End XRun.
@@ -249,15 +249,16 @@ End XRun.
 Definition x_model_agrees (c : xcase) : bool :=
   let '(obs, stored) := x_model_run c in
   list_eqb uobs_eqb (xc_obs c) obs && list_eqb stored_eqb (xc_stored c) stored
-  && xcheck (tbl_hash (xc_hash c)) (xc_ops c) (map norm obs) stored.
+  && xcheck (tbl_hash (xc_hash c)) (is_http (xc_stack c)) (xc_ops c) (map norm obs) stored.
 
 Definition x_obs_ok (c : xcase) : bool :=
-  xcheck (tbl_hash (xc_hash c)) (xc_ops c) (map norm (xc_obs c)) (xc_stored c).
+  xcheck (tbl_hash (xc_hash c)) (is_http (xc_stack c)) (xc_ops c) (map norm (xc_obs c)) (xc_stored c).
 
 Definition is_commit (o : xop) : bool := match o with XU (UCommit _) => true | _ => false end.
 Definition is_xfault (o : xop) : bool := match o with XFault _ => true | _ => false end.
+Definition is_xforget (o : xop) : bool := match o with XForget => true | _ => false end.
 Definition x_nontrivial (c : xcase) : bool :=
-  existsb is_xfault (xc_ops c) || (2 <=? Z.of_nat (List.length (filter is_commit (xc_ops c)))).
+  existsb is_xfault (xc_ops c) || existsb is_xforget (xc_ops c) || (2 <=? Z.of_nat (List.length (filter is_commit (xc_ops c)))).
 
 Lemma norm_agree a b : uobs_eqb a b = true -> norm a = norm b.
 Proof.
